@@ -1331,6 +1331,11 @@ func (ctx *RenderContext) getItem(container, index interface{}) (interface{}, er
 				}
 			}
 
+			// A value that cannot be hashed (a list, a hash) is not a key of any map
+			if !mapKey.Comparable() {
+				return nil, nil
+			}
+
 			mapValue := v.MapIndex(mapKey)
 			if mapValue.IsValid() {
 				return mapValue.Interface(), nil
